@@ -151,6 +151,13 @@ func (c *FnCtx) ce(st *State, e ast.Expr, env *CEnv, want *SV) Val {
 		return c.ceField(st, base, x.Sel.Name, env)
 	case *ast.IndexExpr:
 		base := c.ce(st, x.X, env, nil)
+		if mv, isSV := base.(SV); isSV && mv.S.K == KArray {
+			// locally made integer map: select
+			i64 := SV{"", S64, false}
+			if kv, ok := c.mat(c.ce(st, x.Index, env, &i64), &i64).(SV); ok {
+				return SV{app("select", mv.T, resize(kv.T, kv.S.W, 64, kv.Signed)), *mv.S.Elem, mv.Signed}
+			}
+		}
 		sl, ok := base.(*SliceVal)
 		if !ok {
 			c.unsupportedf(token.NoPos, "contract: index of non-slice")
@@ -448,16 +455,26 @@ func (c *FnCtx) ceCall(st *State, x *ast.CallExpr, env *CEnv, want *SV) Val {
 		bv := fmt.Sprintf("%s!q%d", sanitize(vn), c.nfresh)
 		c.nfresh++
 		i64 := SV{"", S64, true}
-		lo := c.mat(c.ce(st, x.Args[1], env, &i64), &i64).(SV)
-		hi := c.mat(c.ce(st, x.Args[2], env, &i64), &i64).(SV)
+		allKeys := false
+		if id, ok := x.Args[1].(*ast.Ident); ok && id.Name == "allkeys_" {
+			allKeys = true
+		}
+		var lo, hi SV
+		if !allKeys {
+			lo = c.mat(c.ce(st, x.Args[1], env, &i64), &i64).(SV)
+			hi = c.mat(c.ce(st, x.Args[2], env, &i64), &i64).(SV)
+		}
 		nenv := *env
 		nenv.bound = map[string]Val{}
 		for k, v := range env.bound {
 			nenv.bound[k] = v
 		}
-		nenv.bound[vn] = SV{bv, S64, true}
+		nenv.bound[vn] = SV{bv, S64, !allKeys}
 		body := c.ceBool(st, x.Args[3], &nenv)
-		rng := and(app("bvsle", lo.T, bv), app("bvslt", bv, hi.T))
+		rng := "true"
+		if !allKeys {
+			rng = and(app("bvsle", lo.T, bv), app("bvslt", bv, hi.T))
+		}
 		if name == "forall_" {
 			return SV{fmt.Sprintf("(forall ((%s (_ BitVec 64))) %s)", bv, implies(rng, body)), SBool, false}
 		}
